@@ -26,7 +26,9 @@ RULE = (
     "call -> the equivalent while-loop (prefix then that exception); generate_with_relative_time with delay "
     "functions returning 0/0.5/1/2/3 as int, float or timedelta -> state i at t0 + sum of the delays of states 0..i; "
     "timer(d) for d int/float/timedelta/absolute datetime -> 0 at t0+d (or at d) then completion. Oracle: exact "
-    "(tick, kind, type-tagged value) list incl. terminal; for the synchronous factories every notification is at "
+    "(tick, kind, type-tagged value) list incl. terminal, on the TestScheduler (float clock) or the HistoricalScheduler "
+    "(datetime clock, 1 tick = 1 s); a run cut short by the lab's guards is still a violation when a subscriber has "
+    "already received more elements than specified; for the synchronous factories every notification is at "
     "the subscription tick. Non-trivial: >=2 elements or a boundary parameter (empty range/iterable, n=0, zero "
     "delay, d=0, negative step, never). Cases reaching 90 actions at one instant are discarded as inconclusive. "
     "Distinct = distinct case JSON. long: range / from_iterable / repeat_value / generate with 99..2000 elements on "
@@ -265,7 +267,8 @@ def _run(case):
         raise HarnessError(f"mode fac for {f}")
     if mode == "none" and f not in SYNC_DEFAULT:
         raise HarnessError(f"{f} without scheduler would run on real threads")
-    lab = Lab()
+    clock = case.get("clock", "test")
+    lab = Lab("hist", tick_s=1.0) if clock == "hist" else Lab()  # hist: HistoricalScheduler, datetime clock, 1 tick = 1 s
     o, exp = _build(case, lab)
     subs = [case["t0"]] + ([case["t0"] + case["gap"]] if case.get("gap") else [])
     probes = []
@@ -275,8 +278,15 @@ def _run(case):
         sch = "lab" if mode == "sub" else None
         lab.at(t, (lambda p=p: p.subscribe(o, scheduler=sch)))
     inc = lab.run()
-    cls = [f"f:{f}", f"mode:{mode}"]
+    cls = [f"f:{f}", f"mode:{mode}", f"clock:{clock}"]
     if inc:
+        # the run was cut short by the lab's guards; it is still a violation if a subscriber has by then already
+        # received more elements than the specified sequence contains (e.g. a finite factory that never stops)
+        want_n = sum(1 for e in exp if e[1] == "N")
+        for p in probes:
+            got_n = sum(1 for e in p.events if e[1] == "N")
+            if got_n > want_n:
+                return FAIL(f"sequence:more-than-specified|{f}", f"specified sequence has {want_n} elements, subscriber already received {got_n} when the run was stopped ({inc}); case={case}", classes=cls + ["overflow-detected"])
         return SKIP(inc)
     if lab.escaped is not None:
         e = lab.escaped
@@ -311,6 +321,8 @@ def _run(case):
             boundary.append("empty-loop")
     if len(subs) > 1:
         cls.append("resubscribed")
+    if any(e[0] >= 86400 for p in probes for e in p.events):
+        cls.append("timeline-beyond-one-day")
     cls += ["b:" + b for b in boundary]
     for p, t_sub in zip(probes, subs):
         okg, msg = p.grammar_ok()
@@ -326,7 +338,7 @@ def _run(case):
 # ---------------------------------------------------------------------------------------
 # strategies
 
-_t0 = st.sampled_from([0, 1, 5, 200])
+_t0 = st.sampled_from([0, 1, 5, 200, 200, 100000])  # 100000: past the first day of the virtual clock
 _names = st.sampled_from(NAMES)
 _BIG = [2**31, 2**63 - 1, 2**63, 10**9, -(2**31), -(2**63), -(10**9)]
 
@@ -446,7 +458,7 @@ def _bounded(c):
 @st.composite
 def _timer_case(draw):
     rep = draw(st.sampled_from(["int", "float", "td", "abs"]))
-    d = draw(st.sampled_from([0, 0, 1, 2, 3, 10, 0.5, 2.5, 250]))
+    d = draw(st.sampled_from([0, 0, 1, 2, 3, 10, 0.5, 2.5, 250, 90000]))
     if rep == "int" and d != int(d):
         rep = "float"
     return {"f": "timer", "d": d, "rep": rep}
@@ -457,6 +469,7 @@ def _case(draw):
     c = draw(st.one_of(_range_case(), _range_case(), _iter_case(), _simple_case(), _loop_case().filter(_bounded), _loop_case().filter(_bounded), _timer_case()))
     c = dict(c)
     c["mode"] = _modes(c["f"], draw)
+    c["clock"] = draw(st.sampled_from(["test", "test", "hist"]))
     c["t0"] = draw(_t0)
     if c.get("rep") == "abs":
         c["d"] = c["t0"] + c["d"]  # absolute due tick, never before the subscription
